@@ -440,14 +440,14 @@ def memo_sound(L, repo, rule, modnames):
         mod = repo.mod(mn)
         for cname, fd, deco in getattr(mod, "memoised", []):
             n += 1
-            ci = mod.classes.get(cname)
-            if ci is None:
+            ci = mod.classes.get(cname) if cname is not None else None
+            if ci is None and cname is not None:
                 continue
             # classes that share the instance: the hierarchy above and the subclasses in the toolkit
-            family = list(repo.mro(ci))
+            family = list(repo.mro(ci)) if ci is not None else []       # (a module-level function reads no instance)
             for m2 in repo.tk_modules():
                 for c2 in m2.classes.values():
-                    if c2 not in family and any(x.name == ci.name for x in repo.mro(c2)):
+                    if ci is not None and c2 not in family and any(x.name == ci.name for x in repo.mro(c2)):
                         family.append(c2)
             meths = {}
             for c_ in reversed(family):
@@ -487,7 +487,7 @@ def memo_sound(L, repo, rule, modnames):
                     if isinstance(x, _ast.Attribute) and isinstance(x.ctx, (_ast.Store, _ast.Del)) and x.attr in reads \
                             and not (isinstance(x.value, _ast.Name) and x.value.id == "self"):
                         writers.setdefault(x.attr, set()).add("%s (`%s = ...`)" % (m2.name, canon(x)))
-            fn = "%s.%s" % (cname, fd.name)
+            fn = "%s.%s" % (cname, fd.name) if cname is not None else fd.name
             L.fn(mod.rel, fn)
             L.ob(rule, mod.rel, fn, "@%s: the memoised value depends on no attribute that is stored after construction" % deco,
                  {}, {k: sorted(v)[:3] for k, v in sorted(writers.items())}, not writers, fd.lineno)
